@@ -19,7 +19,7 @@ import (
 func init() {
 	register(&Check{
 		ID:   "C09",
-		Rule: "case = (type with required fields, value, message omitting a subset of fields at any nesting level, or carrying a field's id with another wire type). Enumerated floor: 6-field structs at field-id sets straddling the 64-bit words of the presence set (0,1,63,64,65,127,128,255,256,4095,4096,32767,32768,65534,65535) with every subset of fields required (64 subsets per id set) and a random subset omitted; then random nested types. Half of the cases run with the pool sanitizer (recycled presence set all ones) and a priming decode of a complete message. Oracle: error iff some recognised struct instance lacks a required field (computed from the schema-less parse tree); the error is a ProtocolException INVALID_DATA naming a missing Go field; the encoder output carries every required field. distinct = distinct (type shape, omitted-id set); non-trivial = at least one required field exists in the type",
+		Rule: "case = (type with required fields, value, message omitting a subset of fields at any nesting level, or carrying a field's id with another wire type). Enumerated floor: 6-field structs at field-id sets straddling the 64-bit words of the presence set (0,1,63,64,65,127,128,255,256,4095,4096,32767,32768,65534,65535; also sets whose largest id is exactly 31, 32, 64 or 128 while id 0 is declared) with every subset of fields required (64 subsets per id set) and a random subset omitted; then random nested types. Half of the cases run with the pool sanitizer (recycled presence set all ones) and a priming decode of a complete message. Oracle: error iff some recognised struct instance lacks a required field (computed from the schema-less parse tree); the error is a ProtocolException INVALID_DATA naming a missing Go field; the encoder output carries every required field. distinct = distinct (type shape, omitted-id set); non-trivial = at least one required field exists in the type",
 		Plan: func(tier string) []BuildPlan {
 			if tier == "thorough" {
 				return []BuildPlan{{"plain", c09Enumerated + 1000000}, {"checkptr", c09Enumerated + 200000}}
@@ -38,6 +38,11 @@ var c09IDSets = [][]uint16{
 	{32767, 32768, 32769, 32831, 32832, 0},
 	{65534, 65535, 65471, 65472, 1, 64},
 	{1, 2, 3, 4, 5, 6},
+	// the largest id sits exactly on a word boundary of the presence set, id 0 is declared too
+	{0, 1, 2, 62, 63, 64},
+	{0, 31, 32, 33, 64, 5},
+	{0, 63, 127, 128, 7, 9},
+	{0, 1, 30, 31, 32, 6},
 }
 
 var c09Enumerated = len(c09IDSets) * 64
